@@ -24,7 +24,34 @@ class EvalInterp(Interp):
         self.behaviour = {}      # host function tag -> 'ok' | 'va' | 'err' | 'rt' | 'pe'
         self.truths = {}         # tag -> truth of its result
         self.oracles['value_boolean'] = self._boolean
+        self.oracles['value_compare'] = self._compare
         self.builtin_table = ADict({})
+        self.cmp_result = 0
+        self.cmp_operands = None
+
+    def _compare(self, args, node):
+        self.events.append(('compare', tuple(args)))
+        if self.cmp_operands is None:
+            raise Unrecognised(self.rule, 'value_compare called in a scenario without operands', self.mod.rel)
+        L, R = self.cmp_operands
+        if list(args) == [L, R]:
+            return self.cmp_result
+        if list(args) == [R, L]:
+            return -self.cmp_result
+        raise Unrecognised(self.rule, f'value_compare called with {args!r}', self.mod.rel)
+
+    def builtin_hook(self, name, args, e):
+        if name == 'isinstance' and args and isinstance(args[0], Sym) and args[0].kind == 'val' and len(args[0].args) > 3:
+            from .atoms import CLASS_NAMES, INSTANCE_OF
+            atom = args[0].args[3]
+            classes = [norm(x) for x in (e.args[1].elts if isinstance(e.args[1], ast.Tuple) else [e.args[1]])]
+            for c in classes:
+                if c not in CLASS_NAMES:
+                    raise Unrecognised(self.rule, f'isinstance class {c}', self.mod.rel)
+                if CLASS_NAMES[c] in INSTANCE_OF[atom]:
+                    return True
+            return False
+        return NotImplemented
 
     def _boolean(self, args, node):
         v = args[0]
@@ -245,6 +272,13 @@ def scenarios():
                     {'binary': {'op': '||', 'left': {'binary': {'op': '&&', 'left': F('g'), 'right': F('f')}}, 'right': F('h')}}, None, G, {}, True, {}, {'g': tc, 'f': False}, 'on'))
     out.append(('lazy-if', 'if() without arguments', F('if', noargs=True), None, G, {}, True, {}, {}, 'on'))
     out.append(('lazy-if', 'a user function named `if` does not replace the lazy built-in', F('if', F('g'), F('f'), F('h')), None, dict(G, **{'if': Sym('hostfn', 'user-if')}), {}, True, {}, {'g': False}, 'on'))
+    # R: relational operators are the sign tests of value_compare
+    for op in ('==', '!=', '<', '<=', '>', '>='):
+        for c in (-1, 0, 1):
+            for a1, a2 in (('str', 'str'), ('int', 'float'), ('None', 'dict')):
+                Lv, Rv = Sym('val', 'L', True, a1), Sym('val', 'R', True, a2)
+                out.append(('relational', f'l {op} r with l: {a1}, r: {a2}, value_compare(l, r) = {c}', {'binary': {'op': op, 'left': V('l'), 'right': V('r')}},
+                            None, {'l': Lv, 'r': Rv}, {}, True, {'__cmp__': c}, {}, 'on'))
     # E: the call wrapper
     for b, bdesc in (('ok', 'returns'), ('va', 'raises ValueArgsError'), ('err', 'raises TypeError'), ('rt', 'raises BareScriptRuntimeError'), ('pe', 'raises BareScriptParserError')):
         for debug in ('on', 'off', 'nolog', 'noopts-globals'):
@@ -267,14 +301,30 @@ def run_all(repo, rule='E6e'):
         n += 1
         it.behaviour, it.truths = behaviour, truths
         it.builtin_table = build(bt)
+        it.cmp_operands = None
+        if cat == 'relational':
+            it.cmp_result = behaviour['__cmp__']
+            it.cmp_operands = (glob['l'], glob['r'])
         a_expr = build(expr)
         a_loc = build(loc) if loc is not None else None
         a_glob = build(glob) if glob is not None else None
-        want, wev = reference(expr, loc, glob, bt, flag, behaviour, truths, 'on' if debug == 'on' else 'off')
+        if cat == 'relational':
+            c = behaviour['__cmp__']
+            op = expr['binary']['op']
+            want, wev = ('value', {'==': c == 0, '!=': c != 0, '<': c < 0, '<=': c <= 0, '>': c > 0, '>=': c >= 0}[op]), None
+        else:
+            want, wev = reference(expr, loc, glob, bt, flag, behaviour, truths, 'on' if debug == 'on' else 'off')
         try:
             got = it.evaluate(func, a_expr, a_loc, a_glob, flag, 'nolog' if debug == 'noopts-globals' else debug)
         except HostTruth as ht:
             problems.setdefault('truth', []).append((desc, 'the host truthiness of an evaluated value decides the result (instead of value_boolean): ' + (norm(ht.node)[:70] if ht.node is not None else ''), ht.node))
+            continue
+        if cat == 'relational':
+            ncmp = sum(1 for e in it.events if e[0] == 'compare')
+            if got != want:
+                problems.setdefault(cat, []).append((desc, f'evaluates to {_fmt(got)}; the sign test of the value comparison gives {_fmt(want)}', None))
+            elif ncmp != 1:
+                problems.setdefault(cat, []).append((desc, f'calls value_compare {ncmp} times (the result must be the sign test of one comparison)', None))
             continue
         gev = [(e[0], e[1], e[2]) if e[0] == 'call' else ('log',) for e in it.events]
         gv = got
@@ -336,7 +386,7 @@ def report(chk, rule_by_cat, what):
                 chk.bad(rule, mod, 'evaluate_expression', f'scenario: {desc}', f'abstract evaluation of `{desc}`: {msg}', node=node)
             continue
         if not items:
-            chk.ok(rule, f'{counts.get(cat, 0)} abstract evaluations ({what.get(cat, cat)}) agree with the documented semantics (E6e)')
+            chk.ok(rule, f'{counts.get(cat, 0)} abstract evaluations ({what.get(cat, cat)}) agree with the documented semantics (E6e)', count=counts.get(cat, 1))
             continue
         seen = set()
         for desc, msg, node in items:
